@@ -4,12 +4,11 @@
  * return, and a fault-free twin: for a history with K lock calls every "lock #k fails" and "unlock #k fails" run
  * is executed; a failed lock must do nothing at all (the harness retries it), a failed unlock must only change the
  * return value, and the rest of the history must be identical to the fault-free run. */
-#include "common.h"
-#include "refmodel.h"
+#include "engine.h"
 
 const char *CHK_RULE = "one case = one history of 120..400 API calls mixing all eight locking functions (cat_service, cat_is_busy, cat_is_hold, cat_is_unsolicited_buffer_full, "
                        "cat_trigger_unsolicited_event/_read/_test, cat_hold_exit) over command lines, holds, events and write back-pressure, run fault-free once and then once "
-                       "per (lock call k, fault kind) exhaustively; evaluations = faulty runs + fault-free runs; non-trivial = faulty run whose faulted call happened in a "
+                       "per (lock call k, fault kind) exhaustively; a second, cheap workload runs the engine's histories with the mock mutex and bracket monitors only; evaluations = faulty runs + fault-free runs + engine histories; non-trivial = faulty run whose faulted call happened in a "
                        "non-idle parser state; distinct by (history, k, fault kind)";
 
 enum { OP_SERVICE, OP_BUSY, OP_HOLD, OP_FULL, OP_TRIG, OP_TRIG_R, OP_TRIG_T, OP_HEXIT, OP__N };
@@ -129,19 +128,54 @@ static void run_history(long fail_lock, long fail_unlock, int *rets, struct outc
 }
 void chk_describe(FILE *f)
 {
+        if (nops == 0) { fprintf(f, "%s\n", note); eng_describe(f); return; }
         w_describe(f); fprintf(f, "%s\nhistory (%d calls):", note, nops);
         for (int i = 0; i < nops; i++) { if (i % 10 == 0) fprintf(f, "\n  "); fprintf(f, "%d:%s(%d,%d)%s ", i, OPN[ops[i].type] + 4, ops[i].ci, ops[i].arg, i == fault_op ? "<<FAULT" : ""); }
         fprintf(f, "\n"); io_describe(f);
 }
 
+/* ---- second workload: the rich engine histories (events from the harness, holds, lists, back-pressure, probes, queries) with the mock mutex and no faults.
+ * Bracket monitors of common.c (lock while held, unlock while not held, any io / handler / variable callback outside the lock) plus: the hash of
+ * (object, buffers, variables) taken at every lock must equal the one taken at the previous unlock - nothing is touched outside the bracket. ---- */
+static uint64_t b_last_unlock; static bool b_have; static long b_brackets;
+static void b_on_lock(bool is_lock, int result)
+{
+        (void)result;
+        uint64_t h = world_hash();
+        if (is_lock) { if (b_have && h != b_last_unlock) viol("C16", "state-touched-outside-the-lock", "parser state changed between the previous unlock and this lock"); }
+        else { b_last_unlock = h; b_have = true; b_brackets++; }
+}
+static void engine_history_with_mutex(void)
+{
+        snprintf(note, sizeof note, "engine history with the mock mutex (bracket monitors only, no fault)");
+        nops = 0; fault_op = -1;
+        eng_default_profile();
+        EP.p_handler_trigger = 0;              /* a handler runs under the lock: calling the locking API from it would self-deadlock a non-recursive mutex (application bug, DESIGN 3.2) */
+        EP.p_event_step = 20 + rn(100); EP.p_hold = 20; EP.p_cut = 10;
+        NEXT_WORLD_USE_MUTEX = true;
+        eng_gen_table();
+        NEXT_WORLD_USE_MUTEX = false;
+        eng_gen_input(1 + rn(8));
+        eng_random_schedules();
+        b_have = false; b_brackets = 0;
+        eng_monitors_install();
+        ON_LOCK = b_on_lock;
+        eng_run_history();
+        if (MX_DEPTH != 0) viol("C16", "lock-not-released", "the lock is still held at the end of the history");
+        if (MX_LOCKS != MX_UNLOCKS) viol("C16", "unbalanced", "%ld lock calls, %ld unlock calls", MX_LOCKS, MX_UNLOCKS);
+        CNT("engine_histories_with_mutex"); CNTN("brackets_checked_in_engine_histories", b_brackets);
+        if (b_brackets > 50) nontrivial(hash_u64((uint64_t)b_brackets, hash_bytes(INB, INLEN, hash_u64(W.ncmds, 1600))));
+}
 struct case_budget chk_budget(const char *tier)
 {
-        struct case_budget b = { 0, strcmp(tier, "thorough") == 0 ? 8000 : 320 };
+        /* one case in 64 is a fault-enumerated history (expensive), the others are engine histories with bracket monitors only */
+        struct case_budget b = { 0, (strcmp(tier, "thorough") == 0 ? 8000 : 320) * 64 };
         return b;
 }
 void chk_run_case(uint64_t seed, long c, bool is_sweep)
 {
-        (void)seed; (void)c; (void)is_sweep; note[0] = 0;
+        (void)seed; (void)is_sweep; note[0] = 0;
+        if (c % 64 != 0) { engine_history_with_mutex(); return; }
         w_begin();
         W.use_mutex = true;
         struct cat_command *a = w_group(5, false);
